@@ -39,6 +39,27 @@ CHECKS["C05"] = dict(
     technique="TLA+ trace validation of fault-injected executions generated from the TLC-explored shape space",
     ref="5/C05")
 
+CHECKS["C08"] = dict(
+    text="Same construction over shapes with CFI procedures (directives at block starts, instruction boundaries and block ends; remember/restore) and patches with balanced CFI; CFI directives are items of the listing, Edit applies the deletion/insertion rules, and the unwind state in effect at every instruction is computed by the specification's own evaluator (spec/CfiEvalOps.tla, shared with C15) for the edited listing and for the observed post-state and compared; plus the property-literal clauses (membership, state preserved without deletions, structure, still evaluates).",
+    note="As C01. The evaluator is the spec's, not the library's (C15 validates the latter). Escapes and operands >= 2^31 are out of domain; a deleted range holding a whole procedure is out of the structural clauses' domain. The initial row is not part of the compared state.",
+    technique="TLA+ listing-refinement spec with CFI items and a TLA+ DWARF CFA evaluator; TLC case generation + trace validation",
+    ref="5/C08")
+CHECKS["C09"] = dict(
+    text="Every generated batch is executed twice: once in one apply() with a hook sink recording, after each insert/delete and before each patch is assembled, the answers of the four rewrite caches next to what the IR itself says, and once request by request, each in its own RewritingContext. TLC judges cache coherence at every step, the direct view of the symbols a patch names, and equality of all Level-A observables of the two results.",
+    note="As C01. The one-at-a-time order is: blocks in address order, inside a block by descending offset (needs no re-anchoring because the head of a split block keeps identity and offsets). Batch/sequential CFG differences are excused only edge-wise under the open CFG findings; KF-C09-1 open.",
+    technique="TLA+ trace validation of hook-observed cache states and of batch-vs-sequential executions generated from the TLC-explored shape space",
+    ref="5/C09")
+CHECKS["C11"] = dict(
+    text="Cases from the TLC-explored shape x batch space are each executed in fresh processes under several PYTHONHASHSEED values (fresh UUIDs) and under admissible permutations of the registration order; TLC (spec/TraceDet.tla) judges that all canonical finals of a case - block boundaries, edge sets, temp-label names, aux reference counts - are equal. The order-independence of the semantics itself (Edit never looks at application order) is what GenG1.tla/Listing.tla model-check.",
+    note="Hash-order nondeterminism can only be sampled (4 seeds quick, 16 thorough); canonical form = projection without UUID-derived ids and addresses.",
+    technique="TLA+ judged cross-run comparison of executions under varied hash seeds / registration permutations; TLC-generated cases",
+    ref="5/C11")
+CHECKS["C14"] = dict(
+    text="spec/Dwarf.tla is an independent DWARF v4 codec written from the standard (opcode tables, LEB128 on bit sequences anchored by test vectors, fixed-width two's complement LE/BE, fused lit/reg/breg and low-6-bit CFA forms, expression blocks, shortest-constant chooser). TLC checks round trip, prefix-freedom, ParseAll of Concat, classification of all 256 first bytes, chooser minimality and table integrity on every state of an encoder/decoder session and emits every state as a case; each case is replayed into the real encode/decode/parse_cfi_instructions/gtirb_encoding/make_const_op and spec/TraceDwarf.tla judges bytes, objects, lengths and exception types.",
+    note="Trusted: the runner's DW_* name to class binding, GNU-as directive semantics as specified, gtirb's aux-data serializer as observer. Operand values are boundary-sampled (0, +-1, +-(2^k-1), +-2^k, +-(2^k+1), seeded random up to 66 bits), not all of [-2^63, 2^64); streams have at most 2 instructions. KF-C14-1 open.",
+    technique="TLC model-checks an independent TLA+ codec, emits every state as a conformance case, and judges the real codec's traces",
+    ref="5/C14")
+
 PENDING = {}
 
 
